@@ -52,6 +52,13 @@ def documents():
                                 kid('AB', (('k', 'VX'), ('TYPE', 'TX'))))),)
     docs.append(('api-html-mixed', T.build_api(forest, False)))
     docs.append(('api-xml-mixed', T.build_api(forest, True)))
+    # what html5lib builds: an HTML document whose elements carry the XHTML namespace (the namespace-aware code paths with HTML case rules),
+    # names stored in mixed case as html5lib does for foreign content
+    docs.append(('api-html5-mixed', _sel.build(forest, 'api-html5')))
+    with warnings.catch_warnings():
+        warnings.simplefilter('ignore')
+        docs.append(('html5lib-foreign', bs4.BeautifulSoup('<div><svg viewBox="0 0 1 1" K="Vx"><foreignObject Type="Tx"><ab k="vx">t</ab></foreignObject>'
+                                                           '<linearGradient gradientUnits="Q" zy="Q"></linearGradient></svg><ab k="Vx"></ab></div>', 'html5lib')))
     return docs
 
 
@@ -62,6 +69,13 @@ def selectors():
     long = 'abcdefghijklm-nopqrstuvwxyz'
     for t in (long, long.upper(), long.title(), long[:13].upper() + long[13:], long[:-1] + 'Z', 'A' + long[1:]):
         out.append((S.cx(S.cp(S.T(t))),))
+    # names html5lib stores in mixed case (adjusted SVG names): in an HTML document they fold like any other name
+    for t in ('foreignobject', 'foreignObject', 'FOREIGNOBJECT', 'lineargradient', 'linearGradient'):
+        out.append((S.cx(S.cp(S.T(t))),))
+    for n in ('viewbox', 'viewBox', 'VIEWBOX', 'gradientunits', 'gradientUnits'):
+        out.append((S.cx(S.cp(None, ('attr', None, n, None, None, None))),))
+        out.append((S.cx(S.cp(None, ('attr', None, n, '^=', '0', None))),))
+        out.append((S.cx(S.cp(None, ('attr', '*', n, None, None, None))),))
     for n in variants('zy'):
         out.append((S.cx(S.cp(None, ('attr', None, n, None, None, None))),))
         out.append((S.cx(S.cp(None, ('attr', None, n, '=', 'Q', None))),))
